@@ -3576,6 +3576,9 @@ class RegexMatch(Match):
         # Create a normal SM
         out_dfa = DFA()
         self._create_dfa_state(self.dfa_2.start_state, out_dfa, True, current_error_handlers[ErrorReasons.NO_MATCH])
+        if self.finish_actions and out_dfa.starting_state in out_dfa.accepting_states:
+            # The finish actions sit on the transitions entering a finishing state; when the expression matches nothing no such transition is taken.
+            out_dfa.append_action_step(self.finish_actions, [out_dfa.starting_state])
         return ProgramData.imbue(out_dfa, DTAG.PARENT, self)
 
 class BinaryRegexMatch(RegexMatch):
